@@ -20,6 +20,9 @@ Fixpoint fsplit_aux (sep : N) (l cur : bytes) : list bytes :=
   | b :: l' => if b =? sep then rev_append cur [] :: fsplit_aux sep l' [] else fsplit_aux sep l' (b :: cur)
   end.
 Definition fsplit (sep : N) (l : bytes) : list bytes := fsplit_aux sep l [].
+(* Msg.tokens with the linear splitting (a Text field of several kilobytes is one token) *)
+Definition ftokens (raw : bytes) : list (bytes * bytes) :=
+  map (fun t => match cut ch_eq t with (a, Some b) => (a, b) | (a, None) => (a, []) end) (removelast (fsplit SOH raw)).
 Definition fwords (l : bytes) : list bytes := filter (fun t => match t with [] => false | _ => true end) (fsplit 32 l).
 
 (* Wire.parse_spec with the linear splitting (a msgspec can carry a Text field of several kilobytes) *)
@@ -75,8 +78,21 @@ Fixpoint has_prefix (p l : bytes) : bool :=
   | _ :: _, [] => false
   end.
 
-Definition parse_call (t : bytes) : cspec :=
+(* <kind>@<n>:...  the release point is for the harness only (when the thread makes the call, not what the call is) *)
+Fixpoint drop_to_colon (l : bytes) : bytes :=
+  match l with
+  | [] => []
+  | 58 :: _ => l
+  | _ :: r => drop_to_colon r
+  end.
+Definition strip_release (t : bytes) : bytes :=
   match t with
+  | k :: 64 :: rest => k :: drop_to_colon rest
+  | _ => t
+  end.
+
+Definition parse_call (t0 : bytes) : cspec :=
+  match strip_release t0 with
   | 83 :: 58 :: rest => SSend (fparse_spec rest)                        (* S: *)
   | 80 :: 58 :: rest => SSend (fparse_spec rest)                        (* P: *)
   | 82 :: 58 :: rest => SRef (fparse_spec rest)                         (* R: *)
